@@ -307,6 +307,11 @@ impl Circuit {
             if input_wires > wires_num {
                 return Err(FromBristolError::MalformedLine(line_str));
             }
+            // every other wire is assigned by a line of its own, so the declared number of wires
+            // (which the tables below are sized by) is bounded by the length of the file:
+            if wires_num - input_wires > lines.len() {
+                return Err(FromBristolError::MalformedLine(line_str));
+            }
             (input_gates, input_wires)
         };
 
@@ -336,8 +341,18 @@ impl Circuit {
 
         // Create the wires map to map the wires in the Bristol format to the wires in the Garble format.
         let mut wires_map = vec![0; wires_num];
-        for (i, wire) in wires_map.iter_mut().take(input_wires_num).enumerate() {
+        // a wire can only be read after it was assigned (the input wires are assigned by the parties):
+        let mut is_assigned = vec![false; wires_num];
+        let input_wires = wires_map.iter_mut().zip(is_assigned.iter_mut());
+        for (i, (wire, is_assigned)) in input_wires.take(input_wires_num).enumerate() {
             *wire = i;
+            *is_assigned = true;
+        }
+        // (an input wire can be an output wire as well)
+        for (wire, output_gate) in (first_output_wire..wires_num).zip(output_gates.iter_mut()) {
+            if wire < input_wires_num {
+                *output_gate = wire;
+            }
         }
         let mut next_wire = input_wires_num;
 
@@ -368,6 +383,16 @@ impl Circuit {
             if output_wire >= wires_num {
                 return Err(FromBristolError::InvalidWireIndex(output_wire));
             }
+            // Every wire is assigned exactly once, before it is read
+            for &input_wire in input_wires.iter() {
+                if !is_assigned[input_wire] {
+                    return Err(FromBristolError::InvalidWireIndex(input_wire));
+                }
+            }
+            if is_assigned[output_wire] {
+                return Err(FromBristolError::InvalidWireIndex(output_wire));
+            }
+            is_assigned[output_wire] = true;
 
             let gate_type = parts.last().ok_or(FromBristolError::MissingGateType)?;
 
@@ -402,6 +427,11 @@ impl Circuit {
                 }
             };
             gates.push(gate);
+        }
+        // all of the output wires must have been assigned
+        let mut output_wires = is_assigned.iter().enumerate().skip(first_output_wire);
+        if let Some((wire, _)) = output_wires.find(|(_, is_assigned)| !**is_assigned) {
+            return Err(FromBristolError::InvalidWireIndex(wire));
         }
 
         Ok(Circuit {
